@@ -55,6 +55,8 @@ namespace details {
         void*                               server;
         // true, if the attribute is read to be send as notification or indication
         bool                                notification;
+        // true, if only the permission to write to an attribute is to be checked
+        bool                                write_check;
 
         template < std::size_t N >
         static constexpr attribute_access_arguments read(
@@ -71,6 +73,7 @@ namespace details {
                 cc,
                 cs,
                 nullptr,
+                false,
                 false
             };
         }
@@ -91,6 +94,7 @@ namespace details {
                 cc,
                 cs,
                 server,
+                false,
                 false
             };
         }
@@ -108,6 +112,7 @@ namespace details {
                 cc,
                 cs,
                 nullptr,
+                false,
                 false
             };
         }
@@ -127,6 +132,7 @@ namespace details {
                 cc,
                 cs,
                 server,
+                false,
                 false
             };
         }
@@ -141,7 +147,26 @@ namespace details {
                 client_characteristic_configuration(),
                 connection_security_attributes(),
                 server,
+                false,
                 false
+            };
+        }
+
+        static attribute_access_arguments check_write(
+            const client_characteristic_configuration& cc,
+            const connection_security_attributes& cs,
+            void* server )
+        {
+            return attribute_access_arguments{
+                attribute_access_type::write,
+                0,
+                0,
+                0,
+                cc,
+                cs,
+                server,
+                false,
+                true
             };
         }
 
@@ -155,6 +180,7 @@ namespace details {
                 client_characteristic_configuration(),
                 connection_security_attributes(),
                 nullptr,
+                false,
                 false
             };
         }
@@ -171,6 +197,7 @@ namespace details {
                 client_characteristic_configuration(),
                 connection_security_attributes(),
                 nullptr,
+                false,
                 false
             };
         }
